@@ -37,8 +37,14 @@ def replay(path):
     from . import harness, front, native
     d = json.load(open(path))
     b = front.Build()
-    r = native.Runner(native.build_runner(b, d.get('profile', 'dev')))
     req = d.get('request') or ['AST', d['key'].split('|')[0], d['sexpr']]
+    if req[0] == 'BUILD':
+        okb, msg = native.cargo_build_subset(b, req[1].split(','))
+        print('replay cargo build --no-default-features --features %s -> %s' % (req[1], 'ok' if okb else 'BUILD-FAILED ' + msg[:300]))
+        b.cleanup()
+        if not okb: print('VIOLATION property=%s replay=%s' % (d['property'], path))
+        return 0 if okb else 1
+    r = native.Runner(native.build_runner(b, d.get('profile', 'dev')))
     st, payload, us = r.request(*req)
     nat = st + ' ' + payload
     print('replay %s -> %s (recorded: %s)' % (req, nat, d.get('native')))
